@@ -188,7 +188,7 @@ MONITORS = [m_log, m_kfault_log, m_ksock_log, m_sendfail_log]
 def run(i):
     note_conf(C.CONFIGS[SCEN[i]['config']]())
     mons = [m for m in MONITORS if not (SCEN[i].get('light') and m is not m_log)]     # fault re-executions: quick scenarios only
-    ex = C.explore(SCEN[i], mons, (), quick=ck.quick, max_states=None if ck.quick else 400000, jobs=0 if ck.quick else ck.jobs)
+    ex = C.explore(SCEN[i], mons, (), quick=ck.quick, max_states=None if ck.quick else 150000, jobs=0 if ck.quick else ck.jobs)
     sm = ex.summary()
     sm['secrets'] = len(SECRETS)
     sm['secret_kinds'] = sorted(set(SECRETS.values()))
